@@ -134,7 +134,10 @@ def check(run: Run, prog: Program, model: Model, tier: str) -> None:
     # equality, equal values of different kinds (True / 1.0) share a slot and the result of substitute() - hence a second
     # substitution of the same value - depends on what was converted before (idempotence clause, necessary condition)
     from .c14 import _memo
-    _memo(run, prog, model, prog.func("d42.utils._from_native.from_native"), rule="CONVERT-PURE")
+    sub = model.visitors["Substitutor"]
+    conv = sub.lookup("_from_native")
+    _memo(run, prog, model, prog.func("d42.utils._from_native.from_native"), rule="CONVERT-PURE",
+          roots=[conv] if conv is not None else None, prefixes=("d42.utils", "d42.substitution"))
     run.analysed["substitutor_paths"] = npaths
     run.floor("ONLY-SUBSTITUTIONERROR", 70)
     run.floor("VALIDATE-FIRST", 70)
